@@ -143,9 +143,32 @@ static bool gen_limits(Rng& rng, const Table& T, int kind, double& x1, double& x
 	return true;
 }
 
+// Parabola data whose vertex lies inside the 1% extrapolation zone beyond the first or last knot (the edge cubic is that parabola, so the curve has a
+// turning point in the zone that Local_Minimum/Maximum must find), at ordinary, tiny and stretched scales: ordinates down to 1e-26 or abscissae up to
+// 1e8, which makes the stored coefficients f/h^2, f/h^3 smaller than any absolute threshold (seeded change C08-r3m3).
+static void make_vertex_in_zone(Rng& rng, Table& T)
+{
+	int N = (int) T.x.size();
+	double xs = rng.coin(0.4) ? rng.loguni(1e4, 1e8) : 1.0, fs = rng.coin(0.6) ? rng.loguni(1e-26, 1e-12) : 1.0;
+	std::vector<double> x = T.x;
+	bool right = rng.coin();
+	double delta = rng.uni(0.001, 0.009);
+	double v = right ? x[N - 1] + delta * (x[N - 1] - x[N - 2]) : x[0] - delta * (x[1] - x[0]);
+	double sgn = rng.sign(), k = rng.coin() ? 0.0 : rng.uni(-1, 1) * (x[N - 1] - x[0]) * (x[N - 1] - x[0]);
+	T.y.resize(N);
+	for(int i = 0; i < N; i++)
+		T.y[i] = fs * (sgn * (x[i] - v) * (x[i] - v) + k), T.x[i] = xs * x[i];
+	T.x_dim = T.f_dim = -1.0;
+	T.X = T.x, T.Y = T.y;
+	T.ystyle = 0;
+}
+
 static void case_table(Rng& rng, uint64_t index)
 {
 	Table T = gen_table(rng, index, 120);
+	bool vertex_table = index % 12 == 7;
+	if(vertex_table)
+		make_vertex_in_zone(rng, T);
 	Steffen M(T.X, T.Y);
 	set_params(table_json(T));
 	hash_table(T);
@@ -167,6 +190,8 @@ static void case_table(Rng& rng, uint64_t index)
 			R.Set_Prefactor(P);
 		}
 		int kind = (q < 7) ? q : rng.irange(0, 6);
+		if(vertex_table && q >= 7 && rng.coin(0.6))
+			kind = 4;
 		double x1, x2;
 		if(!gen_limits(rng, T, kind, x1, x2))
 			continue;
